@@ -108,12 +108,19 @@ def ask_all(spec):
 
 @st.composite
 def near_dst(draw):
+    """an instant within two days of a daylight-saving transition of one of the zones; half of them inside the hours
+    that a spring-forward skips or a fall-back repeats (02:00-03:59 on the transition Sundays)"""
     y = draw(st.integers(1970, 2037))
     mo = draw(st.sampled_from([3, 4, 9, 10, 11]))
     first = datetime(y, mo, 1)
     sun1 = first + timedelta(days=(6 - first.weekday()) % 7)
-    sunday = sun1 + timedelta(days=7 * draw(st.integers(0, 3)))
-    t = sunday + timedelta(hours=draw(st.integers(-48, 48)), minutes=draw(st.sampled_from([0, 15, 30, 45, 59])), milliseconds=draw(st.sampled_from([0, 0, 1, 999])))
+    sunday = sun1 + timedelta(days=7 * draw(st.integers(0, 4)))
+    if sunday.month != mo:
+        sunday -= timedelta(days=7)
+    if draw(st.booleans()):
+        t = sunday + timedelta(hours=draw(st.sampled_from([1, 2, 2, 2, 3, 3])), minutes=draw(st.sampled_from([0, 1, 15, 29, 30, 44, 45, 50, 59])), seconds=draw(st.sampled_from([0, 0, 59])), milliseconds=draw(st.sampled_from([0, 0, 1, 999])))
+    else:
+        t = sunday + timedelta(hours=draw(st.integers(-48, 48)), minutes=draw(st.sampled_from([0, 15, 30, 45, 59])), milliseconds=draw(st.sampled_from([0, 0, 1, 999])))
     return tg.iso(t)
 
 
@@ -152,13 +159,25 @@ def interval_case(draw):
     return dict(kind="interval", t=t, t1=tg.iso(t1), unit=u, k=draw(st.integers(0, 400)), dt=draw(st.integers(1, 12)))
 
 
+def _inject_dst(spec, instants):
+    """a datetime timeline some of whose data sit on / next to a daylight-saving transition"""
+    spec = dict(spec, domain=None)
+    spec["data"] = [dict(d) for d in spec["data"]]
+    for k, t in enumerate(instants):
+        if k < len(spec["data"]):
+            spec["data"][k]["time"] = t
+        else:
+            spec["data"].append({"time": t, "width": 40})
+    return dict(kind="timeline", tl=spec, dst=True)
+
+
 def strategy(tier):
     parts = [scale_case(), interval_case()]
     try:
         from vlib import tl
 
         parts.append(tl.timeline_spec(tier, kinds=("datetime", "date"), max_items=12).map(lambda s: dict(kind="timeline", tl=s)))
-        parts.append(parts[-1])
+        parts.append(st.builds(_inject_dst, tl.timeline_spec(tier, kinds=("datetime",), max_items=8), st.lists(near_dst(), min_size=1, max_size=4)))
     except ImportError:
         pass
     return st.one_of(*parts)
@@ -170,7 +189,7 @@ def _near_transition(spec):
     if spec["kind"] == "interval":
         t = tg.parse(spec["t"])
         return t.month in (3, 4, 9, 10, 11) and (t.weekday() in (5, 6, 0))
-    return False
+    return bool(spec.get("dst"))
 
 
 def check(spec, ctx):
